@@ -546,16 +546,28 @@ def run_route(case, route):
                     m2 = instantiate(raw2, dim, case)
                 o2 = observe(m2)
                 spoil(m2)
-                o["twin_ok"] = (json.dumps(o2, sort_keys=True) == json.dumps({k: v for k, v in o.items() if k not in ("alias_ok", "twin_ok")}, sort_keys=True)
-                                and json.dumps(observe(m), sort_keys=True) == json.dumps(o2, sort_keys=True))
+                o["twin_same"] = json.dumps(o2, sort_keys=True) == json.dumps({k: v for k, v in o.items() if k != "alias_ok"}, sort_keys=True)
+                o["spoil_ok"] = json.dumps(observe(m), sort_keys=True) == json.dumps(o2, sort_keys=True)   # (information only)
             stages.append(o)
         except Exception as ex:
             m = None
-            stages.append({"err": type(ex).__name__, "msg": str(ex)[:120]})
+            e = {"err": type(ex).__name__, "msg": str(ex)[:120]}   # class and message: information only
+            if route == "from_arrays" and keep:
+                # a refusal must leave the caller's arrays as they were
+                fresh = {}
+                try:
+                    from_arrays_call(dict(case, edges=[], faces=[], cells=[]), fresh)
+                    ref = {"V": fresh.get("V")}
+                    e["inputs_ok"] = bool(ref["V"] is None or (keep["V"].shape == ref["V"].shape and (keep["V"] == ref["V"]).all())) \
+                        and all(keep.get(k) is None or (keep[k] == np.array(case[n], dtype=keep[k].dtype)).all()
+                                for k, n in (("Ea", "edges"), ("Fa", "faces"), ("Ca", "cells")))
+                except Exception:
+                    pass
+            stages.append(e)
     edits = case.get("edits") or []
     for k in range(int(case.get("rewraps", 0))):
-        if m is None and (raw is None or stages[-1].get("err") != "KeyError"):
-            break        # nothing to build again from (from_arrays raised, or an unexpected exception)
+        if m is None and raw is None:
+            break        # nothing to build again from (from_arrays raised)
         try:
             if m is not None:
                 raw = RawMeshData(m)
